@@ -365,6 +365,8 @@ func spec(opt Options) scripteng.Spec {
 
 func Run(opt Options) int { return scripteng.Run(spec(opt)) }
 
+func RunCollect(opt Options) (int, *evidence.Evidence) { return scripteng.RunCollect(spec(opt)) }
+
 func Replay(rp *evidence.Replay) int {
 	return scripteng.Replay(spec(Options{Property: rp.Property}), rp)
 }
